@@ -74,6 +74,15 @@ CLAIMED.update({
    text="BFS over creation (scheduled/ad-hoc), start, finish and deletion of <= 3 Jobs (thorough 4) of one JobConfig (schedule enabled/disabled/absent), independent lag of the Job and JobConfig caches (<= 2), failing status writes and restart: at every quiescent state status.activeJobs/queuedJobs/active/queued must equal the authoritative sets and state must be the implied one; every status write is checked for non-decreasing lastScheduled/lastExecuted, and at rest both must cover every Job that was in the controller's cache during a sync whose write took effect, even after deletion.",
    note="Lister order is fixed (sorted) by the harness: the real controller lists Jobs in Go map order, which only permutes the reference lists. A Job deleted before any sync could see it cannot be reflected by any level-triggered controller; that strict reading is counted in the evidence, not asserted.", ref="4 C15"),
 })
+CLAIMED.update({
+ "C20": dict(level="fault_enumeration", tech="deviation-bounded exhaustive enumeration of failing API calls (error / conflict / applied-but-timed-out) over a deterministic end-to-end schedule of all four real controllers, differential final-state oracle; plus fault-budgeted BFS of every controller world with all safety monitors and bottom-SCC livelock analysis",
+   text="(b) End to end: cron worker, cron reconciler, queue, job and jobconfig controllers, active-job store and webhooks on one simulated API server run 4 workloads (Forbid/Enqueue/Allow, fast and overlapping pods, parallel with retries, TTL clean-up) under a deterministic schedule; every API call of the fault-free run (37-90 calls) is a deviation point for each fault kind, all executions with <= 1 (quick) / <= 2 (thorough) deviations run to the horizon; the canonical final API state must equal the fault-free one and safety monitors (one Job per schedule time, concurrency limit, one live task per index, no attempt created twice, Job removed only after listed tasks) must hold. (a) The job, queue, cron-reconciler and jobconfig worlds are explored by BFS with a fault budget of 1-3; every safety monitor of C02/C05-C13/C15 firing on a history with faults counts for C20, and any bottom SCC of system transitions with a cycle (retrying forever without progress) is a livelock violation.",
+   note="Faults cost no simulated time (the back-off is below the model's resolution). Crashes are covered by C09 (job controller) and the C04 end-to-end crash unit, not here. Known finding F8 (applied-but-failed start write) is reported as KNOWN-FINDING.", ref="4 C20"),
+})
+CLAIMED["C04"]["level"] = "fault_enumeration"
+CLAIMED["C04"]["tech"] += "; plus crash enumeration at every API call of an end-to-end run (all controllers) with restart and quiescence"
+CLAIMED["C04"]["text"] += " End to end: the cron worker, cron reconciler, queue/job/jobconfig controllers run three schedule times; a process crash is injected at every API call of the fault-free run (29 calls), all in-memory state is discarded, controllers restart from the API and run to quiescence: every schedule time later than the lastScheduled persisted at the crash must have exactly one Job, none may be missing at or before it, none extra."
+CLAIMED["C04"]["note"] = "A crash before the first-ever schedule time was recorded loses that time by design (never scheduled => not back-scheduled); counted in the evidence, not reported."
 PENDING_REASON = "check not built yet in this session (planned, see DESIGN.md section 4)"
 
 props = [json.loads(l) for l in open("/verif/properties.jsonl")]
